@@ -35,7 +35,7 @@ fn annotations(on: [bool; 4], full: &SAnnotations, actual: Option<&SAnnotations>
 
 /// A member list: the accepted members of the full read in order; when the list as a whole is not of
 /// interest it may be absent altogether.
-fn members<T: Clone>(interested: bool, kept: Vec<&T>, actual: &[T], surplus: &mut u64, build: impl Fn(&T, Option<&T>, &mut u64) -> T) -> Vec<T> {
+fn members<T: Clone>(interested: bool, kept: Vec<(u16, &T)>, actual: &[T], surplus: &mut u64, build: impl Fn(u16, &T, Option<&T>, &mut u64) -> T) -> Vec<T> {
 	if !interested {
 		if actual.is_empty() {
 			return Vec::new();
@@ -45,11 +45,11 @@ fn members<T: Clone>(interested: bool, kept: Vec<&T>, actual: &[T], surplus: &mu
 		}
 	}
 	let aligned = actual.len() == kept.len();
-	kept.iter().enumerate().map(|(i, f)| build(f, if aligned { Some(&actual[i]) } else { None }, surplus)).collect()
+	kept.iter().enumerate().map(|(i, (index, f))| build(*index, f, if aligned { Some(&actual[i]) } else { None }, surplus)).collect()
 }
 
-fn field_target(p: &Plan, f: &SField, a: Option<&SField>, s: &mut u64) -> SField {
-	let on = |i| p.on(FIELD, i);
+fn field_target(p: &Plan, index: u16, f: &SField, a: Option<&SField>, s: &mut u64) -> SField {
+	let on = |i| p.on_m(FIELD, index, i);
 	SField {
 		access: f.access,
 		name: f.name.clone(),
@@ -63,8 +63,8 @@ fn field_target(p: &Plan, f: &SField, a: Option<&SField>, s: &mut u64) -> SField
 	}
 }
 
-fn record_target(p: &Plan, f: &SRecordComponent, a: Option<&SRecordComponent>, s: &mut u64) -> SRecordComponent {
-	let on = |i| p.on(RECORD, i);
+fn record_target(p: &Plan, index: u16, f: &SRecordComponent, a: Option<&SRecordComponent>, s: &mut u64) -> SRecordComponent {
+	let on = |i| p.on_m(RECORD, index, i);
 	SRecordComponent {
 		name: f.name.clone(),
 		desc: f.desc.clone(),
@@ -74,17 +74,17 @@ fn record_target(p: &Plan, f: &SRecordComponent, a: Option<&SRecordComponent>, s
 	}
 }
 
-fn code_target(p: &Plan, no_code: bool, f: &SMethod, a: Option<&SMethod>, s: &mut u64) -> Option<SCode> {
+fn code_target(p: &Plan, index: u16, no_code: bool, f: &SMethod, a: Option<&SMethod>, s: &mut u64) -> Option<SCode> {
 	let fc = f.code.as_ref()?;
 	if no_code {
 		return None; // visit_code() answered None: there is no visitor the code could be delivered to
 	}
 	let ac = a.and_then(|a| a.code.as_ref());
-	if !p.on(METHOD, 0) {
+	if !p.on_m(METHOD, index, 0) {
 		ac?;
 		*s += 1;
 	}
-	let on = |i| p.on(CODE, i);
+	let on = |i| p.on_m(CODE, index, i);
 	Some(SCode {
 		max_stack: fc.max_stack,
 		max_locals: fc.max_locals,
@@ -103,13 +103,13 @@ fn code_target(p: &Plan, no_code: bool, f: &SMethod, a: Option<&SMethod>, s: &mu
 	})
 }
 
-fn method_target(p: &Plan, no_code: bool, f: &SMethod, a: Option<&SMethod>, s: &mut u64) -> SMethod {
-	let on = |i| p.on(METHOD, i);
+fn method_target(p: &Plan, index: u16, no_code: bool, f: &SMethod, a: Option<&SMethod>, s: &mut u64) -> SMethod {
+	let on = |i| p.on_m(METHOD, index, i);
 	SMethod {
 		access: f.access,
 		name: f.name.clone(),
 		desc: f.desc.clone(),
-		code: code_target(p, no_code, f, a, s),
+		code: code_target(p, index, no_code, f, a, s),
 		exceptions: slot(on(1), &f.exceptions, a.map(|a| &a.exceptions), s),
 		synthetic: f.synthetic,
 		deprecated: f.deprecated,
@@ -123,8 +123,8 @@ fn method_target(p: &Plan, no_code: bool, f: &SMethod, a: Option<&SMethod>, s: &
 	}
 }
 
-fn kept<'t, T>(all: &'t [T], declined: &[u16]) -> Vec<&'t T> {
-	all.iter().enumerate().filter(|(i, _)| !declined.contains(&(*i as u16))).map(|(_, x)| x).collect()
+fn kept<'t, T>(all: &'t [T], declined: &[u16]) -> Vec<(u16, &'t T)> {
+	all.iter().enumerate().filter(|(i, _)| !declined.contains(&(*i as u16))).map(|(i, x)| (i as u16, x)).collect()
 }
 
 /// What the visitor must have received (`None` = the class was declined: nothing). `actual` only
@@ -169,17 +169,15 @@ pub fn target(full: &SClass, plan: &Plan, simple: bool, actual: Option<&SClass>,
 	let full_records = full.record.as_ref().unwrap_or(&no_records);
 	let actual_records = act.record.as_ref().unwrap_or(&no_records);
 	let kept_records = if simple { Vec::new() } else { kept(full_records, &plan.decline_records) };
-	let records = members(on(15), kept_records, actual_records, s, |f, a, s| record_target(plan, f, a, s));
+	let records = members(on(15), kept_records, actual_records, s, |i, f, a, s| record_target(plan, i, f, a, s));
 	t.record = if records.is_empty() { None } else { Some(records) };
 
 	// fields and methods: a SimpleClassVisitor reports interest in both
 	let fields_on = simple || plan.on(CLASS, 17);
 	let methods_on = simple || plan.on(CLASS, 18);
-	t.fields = members(fields_on, kept(&full.fields, &plan.decline_fields), &act.fields, s, |f, a, s| field_target(plan, f, a, s));
-	let kept_methods: Vec<(usize, &SMethod)> = full.methods.iter().enumerate().filter(|(i, _)| !plan.decline_methods.contains(&(*i as u16))).collect();
-	let index_of = |m: &SMethod| kept_methods.iter().find(|(_, x)| std::ptr::eq(*x, m)).map(|(i, _)| *i as u16).unwrap_or(u16::MAX);
-	t.methods = members(methods_on, kept_methods.iter().map(|(_, m)| *m).collect(), &act.methods, s, |f, a, s| {
-		method_target(plan, plan.no_code.contains(&index_of(f)), f, a, s)
+	t.fields = members(fields_on, kept(&full.fields, &plan.decline_fields), &act.fields, s, |i, f, a, s| field_target(plan, i, f, a, s));
+	t.methods = members(methods_on, kept(&full.methods, &plan.decline_methods), &act.methods, s, |i, f, a, s| {
+		method_target(plan, i, plan.no_code.contains(&i), f, a, s)
 	});
 	Some(t)
 }
@@ -188,6 +186,5 @@ pub fn target(full: &SClass, plan: &Plan, simple: bool, actual: Option<&SClass>,
 /// delivered (class and method accepted, `interests.code` on, the method has code)?
 pub fn declines_code_of_interest(full: &SClass, plan: &Plan) -> bool {
 	!plan.decline_class
-		&& plan.on(METHOD, 0)
-		&& plan.no_code.iter().any(|j| !plan.decline_methods.contains(j) && full.methods.get(*j as usize).is_some_and(|m| m.code.is_some()))
+		&& plan.no_code.iter().any(|j| plan.on_m(METHOD, *j, 0) && !plan.decline_methods.contains(j) && full.methods.get(*j as usize).is_some_and(|m| m.code.is_some()))
 }
